@@ -153,3 +153,10 @@ func verifC10Stream(e *tcpEngine) VerifC10StreamStats {
 		LargeParked: e.largeCache.size(),
 	}
 }
+
+// Sizes of the per-connection stream buffers (tcp_stream.go), read by the C10
+// drain-boundary sweep so its bursts follow the tree's own constants.
+const (
+	VerifC10StreamDrainSize = tcpDrainSize
+	VerifC10StreamFillSize  = tcpFillSize
+)
